@@ -92,7 +92,8 @@ class CachingLoaderMixin(ABC, _CachingLoaderProtocol):
             self.cache[cache_key] = template
             return template
 
-        if cached_template.global_data == (globals or {}):
+        # Equal mappings are not the same data, `{"x": 1} == {"x": True}`.
+        if not cached_template.global_data and not globals:
             return cached_template
 
         # Callers share the parsed template, not their globals. An earlier caller
@@ -122,7 +123,8 @@ class CachingLoaderMixin(ABC, _CachingLoaderProtocol):
             self.cache[cache_key] = template
             return template
 
-        if cached_template.global_data == (globals or {}):
+        # Equal mappings are not the same data, `{"x": 1} == {"x": True}`.
+        if not cached_template.global_data and not globals:
             return cached_template
 
         # Callers share the parsed template, not their globals. An earlier caller
